@@ -171,6 +171,13 @@ def k_direct(run, case):
         run.check(isinstance(out[1], FilterException) and not pairs, "RPE refuses only with FilterException "
                   "when no pair exists", case, "RPE.process_data raised %r" % (out[1], ), key="rpe:unexpected-exception")
         run.hit("L1 refusals (no pair for delta)")
+        # a refusal is right only if the rule selects no pair at all (C10's oracles on an empty selection)
+        from vmon.props import C10
+        if unit == "meters" and all_pairs and len(seg):
+            C10.check_all_pairs_path(run, case, [], seg, delta, delta * rel_tol, 1e-9 * (float(np.sum(seg)) + 1e-300))
+        elif unit == "frames":
+            run.check(delta >= n, "refusal in frame mode only when delta >= number of poses", case,
+                      "RPE refused delta %r frames for %d poses" % (delta, n), key="rpe:refused-although-pairs-exist")
         return
     run.check(len(rec.calls) == 1, "pairs recorded at id_pairs_from_delta", case,
               "id_pairs_from_delta was reached %d times" % len(rec.calls))
